@@ -392,7 +392,8 @@ Qed.
 Lemma adj_outer_scope ev orig width starts best v s' :
   adj_outer ev orig width starts best = (ROk v, s') -> same_scope orig s'.
 Proof.
-  revert best. induction starts as [|st more IH]; intros best H; cbn in H; [discriminate|].
+  revert best. induction starts as [|st more IH]; intros best H; cbn [adj_outer] in H;
+    [destruct (set_scope (b_args best) (sc_start orig) (sc_end orig)); discriminate|].
   pose proof (adj_try_scope ev orig width st best) as Ht.
   destruct (adj_try ev orig width st best); cbn in Ht.
   - inv H. exact Ht.
